@@ -349,6 +349,18 @@ fn main() {
             check_case(l, *cfg, &map, &setts, depth, &|| format!("cfg={cfg:?}\nspec={}\n--- .osu ---\n{}", spec.describe(), spec.text()));
         });
     }
+    // degenerate sliders (a path without length with repeats; 10 px) among circles, every mode configuration
+    for cfg in MODE_CFGS.iter().filter(|c| c.src != 3) {
+        let alpha = Alphabet::product(&[Kind::Circle, Kind::SliderZeroRep, Kind::SliderTiny], &[0, 150], &[PosK::Same], &[0], &[0]);
+        let n_max = 4u32;
+        let setts = [Setting::nm()];
+        let name = format!("degenerate-sliders/{}to{}/N<={n_max}", cfg.src, cfg.dst);
+        ctx.universe(&name, alpha.count_upto(n_max), |idx, l| {
+            let spec = MapSpec::new(cfg.src, alpha.seq(idx, n_max));
+            let map = spec.decode();
+            check_case(l, *cfg, &map, &setts, 10, &|| format!("cfg={cfg:?}\nspec={}\n--- .osu ---\n{}", spec.describe(), spec.text()));
+        });
+    }
     // converts under other slider velocities / tick rates (a slider becomes several objects of the target mode; how many
     // depends on velocity and tick rate): the protocol must hold for whatever the conversion yields
     for cfg in MODE_CFGS.iter().filter(|c| c.src != c.dst) {
